@@ -121,3 +121,14 @@ Definition seg_check_ctr_go (derived tag_u32 seg_u32 max_tag : Z) : bool :=
 Definition seg_check_gcm_go (derived seg_u32 : Z) : bool :=
   ((derived =? 16) || (derived =? 32))
   && (int32_wrap (derived + 24 + 1) <=? int32_of_u32 seg_u32).
+
+(* ---- the RAW operations (no guard) of some sites, for the table ----------- *)
+(* h.entries[i] *)
+Definition entry_raw {A} (entries : list A) (i : Z) : outcome A :=
+  if i <? 0 then Panic
+  else match nth_error entries (Z.to_nat i) with Some e => Ok e | None => Panic end.
+(* pkEnc[0:n], pkEnc[n:2n] *)
+Definition slh_pk_slices (n : Z) (pk : bytes) : outcome (bytes * bytes) :=
+  bind (slice_z pk 0 n) (fun seed => bind (slice_z pk n (2 * n)) (fun root => Ok (seed, root))).
+(* publicPoint[0] *)
+Definition first_byte (pt : bytes) : outcome N := index_z pt 0.
